@@ -108,7 +108,8 @@ class Prop(BaseProp):
                     continue
                 got = re_bits(r0, ty)
                 # the real part against the same method on plain floats (a few ulps where the dual formula differs)
-                tol = {'cf_tan': 8, 'cf_tanh': 8, 'cf_unscale': 4, 'cf_powf': 32, 'cf_powc': 32, 'cf_powi': 16, 'cf_log': 8, 'cf_hypot': 8, 'rf_atan2': 0}.get(op, 0)
+                tol = {'cf_tan': 8, 'cf_tanh': 8, 'cf_unscale': 4, 'cf_powf': 32, 'cf_powc': 32, 'cf_powi': 16, 'cf_log': 8, 'cf_hypot': 8, 'rf_atan2': 0,
+                       'cf_mul_add': 2}.get(op, 0)      # the float method is fused (one rounding), the dual one is x*a+b (two roundings; C08 proves that form)
                 okk = got == rf or (isinstance(got, int) and isinstance(rf, int) and ulps(got, rf) <= tol)
                 if not okk:
                     self.violations.append(Violation('counterexample', '%s on %s: real part %r differs from the same method on plain floats %r' % (
